@@ -6,7 +6,9 @@ import (
 	"go/token"
 	"go/types"
 	"math"
+	"math/rand"
 	"strings"
+	"time"
 
 	"golang.org/x/tools/go/ssa"
 )
@@ -21,6 +23,7 @@ type Config struct {
 	maxDepth       int
 	pipeTimeoutMS  int
 	crossSolver    string
+	prefer         string
 	tier           string
 }
 
@@ -72,25 +75,29 @@ type Interp struct {
 	focus        []*Term
 	errWhere     string
 	pinned       []uint64
+	deadline     time.Time
+	inPath       bool
+	intDiffOK    int
+	rng          *rand.Rand
 	observed     []string
 	deferMemo    map[*ssa.Function]bool
 	rtErrT       types.Type
 }
 
 type Frame struct {
-	fn      *ssa.Function
-	env     map[ssa.Value]Value
-	free    []Value
-	defers  []deferRec
-	panic   *goPanic
-	owner   *Frame // frame whose deferred call this is (for recover)
-	prev    *ssa.BasicBlock
+	fn       *ssa.Function
+	env      map[ssa.Value]Value
+	free     []Value
+	defers   []deferRec
+	panic    *goPanic
+	owner    *Frame // frame whose deferred call this is (for recover)
+	prev     *ssa.BasicBlock
 	tolerant bool
 }
 
 type deferRec struct {
-	fn   Value
-	args []Value
+	fn     Value
+	args   []Value
 	invoke *types.Func
 }
 
@@ -106,6 +113,7 @@ func NewInterp(prog *ssa.Program, cfg *Config) *Interp {
 		poisoned: map[*ssa.Global]string{}, consts: map[*ssa.Const]Value{}, summ: map[*ssa.Function]*summaryInfo{},
 		uniq: map[string]Value{}, qcache: map[string]cacheEntry{}, deferMemo: map[*ssa.Function]bool{}}
 	in.solver = NewSolver(cfg.pipeTimeoutMS)
+	in.rng = rand.New(rand.NewSource(12345))
 	in.epoch = 1
 	return in
 }
@@ -491,7 +499,7 @@ func (in *Interp) runBlocks(fr *Frame, start *ssa.BasicBlock) Value {
 // execSimple executes a non-control-flow instruction.
 func (in *Interp) execSimple(fr *Frame, instr ssa.Instruction) {
 	switch x := instr.(type) {
-			case *ssa.Panic:
+	case *ssa.Panic:
 		v := in.get(fr, x.X)
 		panic(&goPanic{val: v, site: in.where()})
 	case *ssa.RunDefers:
@@ -1009,6 +1017,9 @@ func (in *Interp) strIndex(s StrV, idx *Term, it types.Type) Value {
 	if !in.branch(inb) {
 		panic(in.rtPanic(fmt.Sprintf("index out of range [symbolic] with length %d", len(s.b))))
 	}
+	if t := in.tableClosedForm(s, wide); t != nil {
+		return t
+	}
 	// ite chain over the (concrete-length) string
 	if len(s.b) <= 256 {
 		r := s.b[len(s.b)-1]
@@ -1018,6 +1029,85 @@ func (in *Interp) strIndex(s StrV, idx *Term, it types.Type) Value {
 		return r
 	}
 	return s.b[in.concretize(wide, "string index")]
+}
+
+// tableClosedForm: verified table summaries. For a constant string indexed by
+// a symbolic index, candidate arithmetic closed forms are checked against
+// EVERY entry of the real table; the first that matches replaces the lookup.
+func (in *Interp) tableClosedForm(s StrV, idx *Term) *Term {
+	n := len(s.b)
+	if n < 8 {
+		return nil
+	}
+	cs, ok := s.Conc()
+	if !ok {
+		return nil
+	}
+	tb := in.tb
+	// narrow the index: it is known to be < n on this path
+	w := 8
+	for (1 << uint(w)) < n {
+		w += 8
+	}
+	if w > 16 {
+		return nil
+	}
+	ni := tb.Extract(idx, w-1, 0)
+	k := func(v int) *Term { return tb.Const(w, uint64(v)) }
+	type cand struct {
+		name string
+		f    func(i int) byte
+		t    func() *Term
+	}
+	cands := []cand{
+		{"affine", func(i int) byte { return cs[0] + byte(i) }, func() *Term {
+			return tb.Bin(OpAdd, tb.Const(8, uint64(cs[0])), tb.Extract(ni, 7, 0))
+		}},
+		{"digit-pairs", func(i int) byte {
+			if i%2 == 0 {
+				return '0' + byte((i/2)/10)
+			}
+			return '0' + byte((i/2)%10)
+		}, func() *Term {
+			half := tb.Bin(OpLShr, ni, k(1))
+			hi := tb.Bin(OpUDiv, half, k(10))
+			lo := tb.Bin(OpURem, half, k(10))
+			odd := tb.Eq(tb.Extract(ni, 0, 0), tb.Const(1, 1))
+			return tb.Bin(OpAdd, tb.Const(8, '0'), tb.Extract(tb.Ite(odd, lo, hi), 7, 0))
+		}},
+		{"hex-lower", func(i int) byte { return "0123456789abcdef"[i%16] }, func() *Term {
+			lt := tb.Bin(OpULt, ni, k(10))
+			return tb.Extract(tb.Ite(lt, tb.Bin(OpAdd, ni, k('0')), tb.Bin(OpAdd, ni, k('a'-10))), 7, 0)
+		}},
+		{"hex-upper", func(i int) byte { return "0123456789ABCDEF"[i%16] }, func() *Term {
+			lt := tb.Bin(OpULt, ni, k(10))
+			return tb.Extract(tb.Ite(lt, tb.Bin(OpAdd, ni, k('0')), tb.Bin(OpAdd, ni, k('A'-10))), 7, 0)
+		}},
+		{"base36-lower", func(i int) byte { return "0123456789abcdefghijklmnopqrstuvwxyz"[i%36] }, func() *Term {
+			lt := tb.Bin(OpULt, ni, k(10))
+			return tb.Extract(tb.Ite(lt, tb.Bin(OpAdd, ni, k('0')), tb.Bin(OpAdd, ni, k('a'-10))), 7, 0)
+		}},
+	}
+	for _, c := range cands {
+		if (c.name == "hex-lower" || c.name == "hex-upper") && n != 16 {
+			continue
+		}
+		if c.name == "base36-lower" && n != 36 {
+			continue
+		}
+		match := true
+		for i := 0; i < n; i++ {
+			if c.f(i) != cs[i] {
+				match = false
+				break
+			}
+		}
+		if match {
+			in.cs.Summaries["table:"+c.name]++
+			return c.t()
+		}
+	}
+	return nil
 }
 
 func (in *Interp) intArg(fr *Frame, v ssa.Value, def int, what string) int {
